@@ -16,7 +16,12 @@ class ElementComposite(Element):
     """
 
     def __init__(self, *elems: Element):
-        self.elems = elems
+        # a composite among the components contributes its components (gbasis
+        # takes the single field of each component), as in Element.__mul__
+        flat = []
+        for e in elems:
+            flat += list(e.elems) if isinstance(e, ElementComposite) else [e]
+        self.elems = tuple(flat)
         self.nodal_dofs = sum([e.nodal_dofs for e in self.elems])
         self.edge_dofs = sum([e.edge_dofs for e in self.elems])
         self.facet_dofs = sum([e.facet_dofs for e in self.elems])
